@@ -34,15 +34,20 @@ Definition look_col (S:schema) (t n:N) : option col :=
   match kfind t_name t S with Some tb => kfind c_name n (t_cols tb) | None => None end.
 Definition look_cons (S:schema) (t n:N) : option cons :=
   match kfind t_name t S with Some tb => kfind k_name n (t_cons tb) | None => None end.
+Definition look_fk (S:schema) (t n:N) : option fk :=
+  match kfind t_name t S with Some tb => kfind f_name n (t_fks tb) | None => None end.
 (* the object is not the same thing in the two schemas *)
 Definition changed (A B:schema) (r:objref) : Prop :=
   match r with
   | RTable n => (look_table A n = None /\ look_table B n <> None) \/ (look_table A n <> None /\ look_table B n = None)
   | RColumn t n => look_col A t n <> look_col B t n
   | RCons t n => look_cons A t n <> look_cons B t n
+  | RFk t n => look_fk A t n <> look_fk B t n
   end.
 
-Definition nd_schema (S:schema) : Prop := NoDup (keys t_name S) /\ forall t, In t S -> nd_table t.
+Definition nd_schema (S:schema) : Prop :=
+  NoDup (keys t_name S) /\ forall t, In t S -> nd_table t /\ NoDup (keys f_name (t_fks t)).
+Definition dok_schema (S:schema) : Prop := forall t, In t S -> dok_table t.
 
 Lemma ciu_local tn ct mt o : In o (compare_indexes_and_uniques tn ct mt) ->
   match ct with Some c => NoDup (keys k_name (t_cons c)) | None => True end ->
@@ -71,23 +76,40 @@ Proof. unfold compare_indexes_and_uniques. rewrite !in_app_iff, !in_flat_map. in
     destruct ct as [c|]; [|congruence]. simpl in E. rewrite E. congruence.
 Qed.
 
-Lemma alter_column_In g tn cc mc o : In o (alter_column g tn cc mc) -> op_target o = RColumn tn (c_name mc) /\ cc <> mc.
-Proof. intros H. split.
-  - unfold alter_column in H. destruct (compare_nullable cc mc); destruct (compare_type_col g cc mc); simpl in H; try tauto;
-      destruct H as [<-|[]]; reflexivity.
-  - intros ->. rewrite alter_column_refl in H. inversion H. Qed.
+Lemma alter_column_In g tn cc mc o : dok_col mc -> In o (alter_column g tn (reflect_col cc) mc) ->
+  op_target o = RColumn tn (c_name mc) /\ cc <> mc.
+Proof. intros Hok H. split.
+  - unfold alter_column in H. destruct (compare_nullable _ mc); destruct (compare_type_col g _ mc); destruct (compare_server_default_col g _ mc);
+      simpl in H; try tauto; destruct H as [<-|[]]; reflexivity.
+  - intros ->. rewrite alter_column_refl in H; auto. Qed.
 
-Lemma cols_local g tn c m o : NoDup (keys c_name (t_cols c)) -> NoDup (keys c_name (t_cols m)) ->
-  In o (compare_columns_pre g tn c m) \/ In o (compare_columns_post tn c m) ->
+Lemma cols_local g tn c m o : NoDup (keys c_name (t_cols c)) -> NoDup (keys c_name (t_cols m)) -> dok_table m ->
+  In o (compare_columns_pre g tn (reflect_table c) m) \/ In o (compare_columns_post tn (reflect_table c) m) ->
   exists n, op_target o = RColumn tn n /\ kfind c_name n (t_cols c) <> kfind c_name n (t_cols m).
-Proof. intros Hc Hm. unfold compare_columns_pre, compare_columns_post. rewrite in_app_iff, !in_flat_map.
+Proof. intros Hc Hm Hok. unfold compare_columns_pre, compare_columns_post. cbn [reflect_table t_cols].
+  rewrite (keys_map c_name reflect_col reflect_col_name), in_app_iff, !in_flat_map.
   intros [[[x [Hx H]]|[x [Hx H]]]|[x [Hx H]]].
   - destruct (memN _ _) eqn:E; simpl in H; [tauto|]. destruct H as [<-|[]]. exists (c_name x). split; auto.
     apply memN_false_kfind in E. rewrite E, (kfind_nodup c_name x _ Hm Hx). congruence.
-  - destruct (kfind c_name (c_name x) (t_cols c)) as [cc|] eqn:E; [|inversion H]. apply alter_column_In in H. destruct H as [Ht Hne].
+  - rewrite (kfind_map c_name reflect_col reflect_col_name) in H.
+    destruct (kfind c_name (c_name x) (t_cols c)) as [cc|] eqn:E; [|inversion H]. cbn [option_map] in H.
+    apply alter_column_In in H; auto. destruct H as [Ht Hne].
     exists (c_name x). split; auto. rewrite E, (kfind_nodup c_name x _ Hm Hx). congruence.
-  - destruct (memN _ _) eqn:E; simpl in H; [tauto|]. destruct H as [<-|[]]. exists (c_name x). split; auto.
-    apply memN_false_kfind in E. rewrite E, (kfind_nodup c_name x _ Hc Hx). congruence.
+  - apply in_map_iff in Hx. destruct Hx as [x0 [<- Hx0]]. cbn [reflect_col c_name] in H.
+    destruct (memN _ _) eqn:E; simpl in H; [tauto|]. destruct H as [<-|[]]. exists (c_name x0). split; auto.
+    apply memN_false_kfind in E. rewrite E, (kfind_nodup c_name x0 _ Hc Hx0). congruence.
+Qed.
+
+Lemma cfk_local tn c m o : NoDup (keys f_name (t_fks c)) -> NoDup (keys f_name (t_fks m)) ->
+  In o (compare_foreign_keys tn (Some c) (Some m)) ->
+  exists n, op_target o = RFk tn n /\ kfind f_name n (t_fks c) <> kfind f_name n (t_fks m).
+Proof. intros Hc Hm. unfold compare_foreign_keys. rewrite in_app_iff, !in_flat_map. intros [[x [Hx H]]|[x [Hx H]]].
+  - destruct (existsb _ _) eqn:E; simpl in H; [tauto|]. destruct H as [<-|[]]. exists (f_name x). split; auto.
+    rewrite (kfind_nodup f_name x _ Hc Hx). intros Heq. symmetry in Heq. apply kfind_some in Heq. destruct Heq as [Hin _].
+    assert (existsb (fk_sig_eqb x) (t_fks m) = true) by (apply existsb_exists; exists x; split; auto; apply fk_sig_eqb_refl). congruence.
+  - destruct (existsb _ _) eqn:E; simpl in H; [tauto|]. destruct H as [<-|[]]. exists (f_name x). split; auto.
+    rewrite (kfind_nodup f_name x _ Hm Hx). intros Heq. apply kfind_some in Heq. destruct Heq as [Hin _].
+    assert (existsb (fk_sig_eqb x) (t_fks c) = true) by (apply existsb_exists; exists x; split; auto; apply fk_sig_eqb_refl). congruence.
 Qed.
 
 Lemma in_compare_tables g A B o : In o (compare_tables g A B) <->
@@ -105,30 +127,49 @@ Proof. unfold compare_tables. rewrite !in_app_iff, !in_flat_map. split.
     + right; right. exists x. rewrite E. auto.
 Qed.
 
+(* the same, with the database side seen through reflection *)
+Lemma in_diff_reflect g A B o : In o (diff g (reflect_sqlite A) B) <->
+  (exists m, In m B /\ kfind t_name (t_name m) A = None /\ In o (added_table m)) \/
+  (exists c, In c A /\ kfind t_name (t_name c) B = None /\ In o (removed_table (reflect_table c))) \/
+  (exists m c, In m B /\ kfind t_name (t_name m) A = Some c /\ In o (existing_table g (reflect_table c) m)).
+Proof. unfold diff. rewrite in_compare_tables. unfold reflect_sqlite. rewrite (keys_map t_name reflect_table reflect_table_name). split.
+  - intros [[m [Hm [E H]]]|[[c [Hc [E H]]]|[m [c [Hm [E H]]]]]].
+    + left. exists m. apply memN_false_kfind in E. auto.
+    + right; left. apply in_map_iff in Hc. destruct Hc as [c0 [<- Hc0]]. exists c0. apply memN_false_kfind in E. auto.
+    + right; right. rewrite (kfind_map t_name reflect_table reflect_table_name) in E.
+      destruct (kfind t_name (t_name m) A) as [c0|] eqn:E0; [|inversion E]. inversion E; subst. exists m, c0. auto.
+  - intros [[m [Hm [E H]]]|[[c [Hc [E H]]]|[m [c [Hm [E H]]]]]].
+    + left. exists m. rewrite memN_keys, E. auto.
+    + right; left. exists (reflect_table c). split; [apply in_map; auto|]. cbn [reflect_table t_name]. rewrite memN_keys, E. auto.
+    + right; right. exists m, (reflect_table c). rewrite (kfind_map t_name reflect_table reflect_table_name), E. auto.
+Qed.
+
 (* every emitted operation is about an object whose lookup differs between the two schemas *)
-Theorem diff_local g A B o : nd_schema A -> nd_schema B -> In o (diff g A B) -> changed A B (op_target o).
-Proof. intros [HAn HAt] [HBn HBt]. unfold diff. rewrite in_compare_tables.
+Theorem diff_local g A B o : nd_schema A -> nd_schema B -> dok_schema B -> In o (diff g (reflect_sqlite A) B) -> changed A B (op_target o).
+Proof. intros [HAn HAt] [HBn HBt] HBd. rewrite in_diff_reflect.
   intros [[m [Hm [E H]]]|[[c [Hc [E H]]]|[m [c [Hm [E H]]]]]].
-  - apply memN_false_kfind in E. destruct H as [<-|H].
+  - destruct H as [<-|H].
     + simpl. left. unfold look_table. rewrite E, (kfind_nodup t_name m B); auto. split; congruence.
-    + destruct (HBt m Hm) as [_ Hk]. apply ciu_local in H; auto. destruct H as [n [-> Hne]]. simpl.
+    + destruct (HBt m Hm) as [[_ Hk] _]. apply ciu_local in H; auto. destruct H as [n [-> Hne]]. simpl.
       unfold look_cons. rewrite E, (kfind_nodup t_name m B); auto.
-  - apply memN_false_kfind in E. unfold removed_table in H. apply in_app_iff in H. destruct H as [H|[<-|[]]].
-    + destruct (HAt c Hc) as [_ Hk]. apply ciu_local in H; auto. destruct H as [n [-> Hne]]. simpl.
+  - unfold removed_table in H. apply in_app_iff in H. cbn [reflect_table t_name] in H. destruct H as [H|[<-|[]]].
+    + destruct (HAt c Hc) as [[_ Hk] _]. apply ciu_local in H; auto. destruct H as [n [-> Hne]]. simpl.
       unfold look_cons. rewrite E, (kfind_nodup t_name c A); auto.
     + simpl. right. unfold look_table. rewrite E, (kfind_nodup t_name c A); auto. split; congruence.
-  - destruct (kfind_some _ _ _ _ E) as [Hc _]. destruct (HAt c Hc) as [Hcc Hck]. destruct (HBt m Hm) as [Hmc Hmk].
+  - destruct (kfind_some _ _ _ _ E) as [Hc _]. destruct (HAt c Hc) as [[Hcc Hck] Hcf]. destruct (HBt m Hm) as [[Hmc Hmk] Hmf].
     unfold existing_table in H. rewrite !in_app_iff in H.
     assert (HB: kfind t_name (t_name m) B = Some m) by (apply kfind_nodup; auto).
-    destruct H as [H|[H|H]].
-    + destruct (cols_local g (t_name m) c m o Hcc Hmc (or_introl H)) as [n [-> Hne]]. simpl. unfold look_col. rewrite E, HB. auto.
+    destruct H as [H|[H|[H|H]]].
+    + destruct (cols_local g (t_name m) c m o Hcc Hmc (HBd m Hm) (or_introl H)) as [n [-> Hne]]. simpl. unfold look_col. rewrite E, HB. auto.
     + apply ciu_local in H; auto. destruct H as [n [-> Hne]]. simpl. unfold look_cons. rewrite E, HB. auto.
-    + destruct (cols_local g (t_name m) c m o Hcc Hmc (or_intror H)) as [n [-> Hne]]. simpl. unfold look_col. rewrite E, HB. auto.
+    + apply (cfk_local (t_name m) (reflect_table c) m) in H; auto. destruct H as [n [-> Hne]]. simpl. unfold look_fk. rewrite E, HB. auto.
+    + destruct (cols_local g (t_name m) c m o Hcc Hmc (HBd m Hm) (or_intror H)) as [n [-> Hne]]. simpl. unfold look_col. rewrite E, HB. auto.
 Qed.
 
 (* ================================================================ the catalogue: what a mutation changes *)
 Lemma name_with_cols f tb : t_name (with_cols f tb) = t_name tb. Proof. reflexivity. Qed.
 Lemma name_with_cons f tb : t_name (with_cons f tb) = t_name tb. Proof. reflexivity. Qed.
+Lemma name_with_fks f tb : t_name (with_fks f tb) = t_name tb. Proof. reflexivity. Qed.
 
 Lemma changed_on_table A t f tb r : (forall x, t_name (f x) = t_name x) -> kfind t_name t A = Some tb ->
   changed A (on_table t f A) r ->
@@ -136,13 +177,16 @@ Lemma changed_on_table A t f tb r : (forall x, t_name (f x) = t_name x) -> kfind
   | RTable _ => False
   | RColumn t' n => t' = t /\ kfind c_name n (t_cols tb) <> kfind c_name n (t_cols (f tb))
   | RCons t' n => t' = t /\ kfind k_name n (t_cons tb) <> kfind k_name n (t_cons (f tb))
+  | RFk t' n => t' = t /\ kfind f_name n (t_fks tb) <> kfind f_name n (t_fks (f tb))
   end.
-Proof. intros Hf Ht. unfold on_table. destruct r as [n|t' n|t' n]; simpl.
+Proof. intros Hf Ht. unfold on_table. destruct r as [n|t' n|t' n|t' n]; simpl.
   - unfold look_table. rewrite kfind_kupdate; auto. destruct (N.eqb t n); [|tauto].
     destruct (kfind t_name n A); simpl; intros [[? ?]|[? ?]]; congruence.
   - unfold look_col. rewrite kfind_kupdate; auto. destruct (N.eqb_spec t t') as [<-|Hne]; [|tauto].
     rewrite Ht. simpl. auto.
   - unfold look_cons. rewrite kfind_kupdate; auto. destruct (N.eqb_spec t t') as [<-|Hne]; [|tauto].
+    rewrite Ht. simpl. auto.
+  - unfold look_fk. rewrite kfind_kupdate; auto. destruct (N.eqb_spec t t') as [<-|Hne]; [|tauto].
     rewrite Ht. simpl. auto.
 Qed.
 
@@ -153,12 +197,20 @@ Lemma inside_col tb n x : kfind c_name n (t_cols tb) = Some x -> In (RColumn (t_
 Proof. intros H. apply kfind_some in H. destruct H as [H1 H2]. unfold inside. right. apply in_app_iff. left.
   apply in_map_iff. exists x. subst; auto. Qed.
 Lemma inside_cons tb n x : kfind k_name n (t_cons tb) = Some x -> In (RCons (t_name tb) n) (inside tb).
-Proof. intros H. apply kfind_some in H. destruct H as [H1 H2]. unfold inside. right. apply in_app_iff. right.
+Proof. intros H. apply kfind_some in H. destruct H as [H1 H2]. unfold inside. right. apply in_app_iff. right. apply in_app_iff. left.
+  apply in_map_iff. exists x. subst; auto. Qed.
+Lemma inside_fk tb n x : kfind f_name n (t_fks tb) = Some x -> In (RFk (t_name tb) n) (inside tb).
+Proof. intros H. apply kfind_some in H. destruct H as [H1 H2]. unfold inside. right. apply in_app_iff. right. apply in_app_iff. right.
   apply in_map_iff. exists x. subst; auto. Qed.
 
+Ltac on_tab Ha Hc A t r lem :=
+  apply in_table_some in Ha; destruct Ha as [tb [Htb Hp]];
+  apply (changed_on_table A t _ tb r lem Htb) in Hc; left; destruct r as [n|t' n|t' n|t' n]; simpl in Hc; try tauto;
+  destruct Hc as [-> Hc].
+
 Lemma changed_touches A m r : applicable m A = true -> changed A (apply_mut m A) r -> In r (touches A m).
-Proof. intros Ha Hc. destruct m as [t|n0|t c|t c|t c|t c y|t k|t n0|t k]; simpl in *.
-  - (* add table *) destruct r as [n|t' n|t' n]; simpl in Hc.
+Proof. intros Ha Hc. destruct m as [t|n0|t c|t c|t c|t c y|t c d|t k|t n0|t k|t f|t n0]; simpl in *.
+  - (* add table *) destruct r as [n|t' n|t' n|t' n]; simpl in Hc.
     + unfold look_table in Hc. rewrite kfind_app, kfind_single in Hc. left.
       destruct (kfind t_name n A); [destruct Hc as [[? ?]|[? ?]]; congruence|].
       destruct (N.eqb_spec (t_name t) n); [congruence|]. destruct Hc as [[? ?]|[? ?]]; congruence.
@@ -168,43 +220,48 @@ Proof. intros Ha Hc. destruct m as [t|n0|t c|t c|t c|t c y|t k|t n0|t k]; simpl 
     + unfold look_cons in Hc. rewrite kfind_app, kfind_single in Hc.
       destruct (kfind t_name t' A); [congruence|]. destruct (N.eqb_spec (t_name t) t') as [<-|]; [|congruence].
       destruct (kfind k_name n (t_cons t)) eqn:E; [|congruence]. eapply inside_cons; eauto.
+    + unfold look_fk in Hc. rewrite kfind_app, kfind_single in Hc.
+      destruct (kfind t_name t' A); [congruence|]. destruct (N.eqb_spec (t_name t) t') as [<-|]; [|congruence].
+      destruct (kfind f_name n (t_fks t)) eqn:E; [|congruence]. eapply inside_fk; eauto.
   - (* drop table *) apply memN_true_kfind in Ha. destruct Ha as [tb Htb]. rewrite Htb.
-    destruct (kfind_some _ _ _ _ Htb) as [_ Hn]. destruct r as [n|t' n|t' n]; simpl in Hc.
+    destruct (kfind_some _ _ _ _ Htb) as [_ Hn]. destruct r as [n|t' n|t' n|t' n]; simpl in Hc.
     + unfold look_table in Hc. rewrite kfind_kremove in Hc. left. destruct (N.eqb_spec n0 n); [congruence|].
       destruct Hc as [[? ?]|[? ?]]; congruence.
     + unfold look_col in Hc. rewrite kfind_kremove in Hc. destruct (N.eqb_spec n0 t') as [<-|]; [|congruence].
       rewrite Htb in Hc. destruct (kfind c_name n (t_cols tb)) eqn:E; [|congruence]. rewrite <- Hn. eapply inside_col; eauto.
     + unfold look_cons in Hc. rewrite kfind_kremove in Hc. destruct (N.eqb_spec n0 t') as [<-|]; [|congruence].
       rewrite Htb in Hc. destruct (kfind k_name n (t_cons tb)) eqn:E; [|congruence]. rewrite <- Hn. eapply inside_cons; eauto.
-  - (* add column *) apply in_table_some in Ha. destruct Ha as [tb [Htb Hp]].
-    apply (changed_on_table A t _ tb r (name_with_cols _) Htb) in Hc. left. destruct r as [n|t' n|t' n]; simpl in Hc; try tauto.
-    destruct Hc as [-> Hc]. rewrite kfind_app, kfind_single in Hc. destruct (kfind c_name n (t_cols tb)); [congruence|].
+    + unfold look_fk in Hc. rewrite kfind_kremove in Hc. destruct (N.eqb_spec n0 t') as [<-|]; [|congruence].
+      rewrite Htb in Hc. destruct (kfind f_name n (t_fks tb)) eqn:E; [|congruence]. rewrite <- Hn. eapply inside_fk; eauto.
+  - (* add column *) on_tab Ha Hc A t r (name_with_cols (fun cs => cs ++ [c])).
+    rewrite kfind_app, kfind_single in Hc. destruct (kfind c_name n (t_cols tb)); [congruence|].
     destruct (N.eqb_spec (c_name c) n); congruence.
-  - (* drop column *) apply in_table_some in Ha. destruct Ha as [tb [Htb Hp]].
-    apply (changed_on_table A t _ tb r (name_with_cols _) Htb) in Hc. left. destruct r as [n|t' n|t' n]; simpl in Hc; try tauto.
-    destruct Hc as [-> Hc]. rewrite kfind_kremove in Hc. destruct (N.eqb_spec c n); congruence.
-  - (* flip nullable *) apply in_table_some in Ha. destruct Ha as [tb [Htb Hp]].
-    apply (changed_on_table A t _ tb r (name_with_cols _) Htb) in Hc. left. destruct r as [n|t' n|t' n]; simpl in Hc; try tauto.
-    destruct Hc as [-> Hc]. rewrite kfind_kupdate in Hc; [|reflexivity]. destruct (N.eqb_spec c n); congruence.
-  - (* change type *) apply in_table_some in Ha. destruct Ha as [tb [Htb Hp]].
-    apply (changed_on_table A t _ tb r (name_with_cols _) Htb) in Hc. left. destruct r as [n|t' n|t' n]; simpl in Hc; try tauto.
-    destruct Hc as [-> Hc]. rewrite kfind_kupdate in Hc; [|reflexivity]. destruct (N.eqb_spec c n); congruence.
-  - (* add cons *) apply in_table_some in Ha. destruct Ha as [tb [Htb Hp]].
-    apply (changed_on_table A t _ tb r (name_with_cons _) Htb) in Hc. left. destruct r as [n|t' n|t' n]; simpl in Hc; try tauto.
-    destruct Hc as [-> Hc]. rewrite kfind_app, kfind_single in Hc. destruct (kfind k_name n (t_cons tb)); [congruence|].
+  - (* drop column *) on_tab Ha Hc A t r (name_with_cols (kremove c_name c)).
+    rewrite kfind_kremove in Hc. destruct (N.eqb_spec c n); congruence.
+  - (* flip nullable *) on_tab Ha Hc A t r (name_with_cols (kupdate c_name c flip_null)).
+    rewrite kfind_kupdate in Hc; [|reflexivity]. destruct (N.eqb_spec c n); congruence.
+  - (* change type *) on_tab Ha Hc A t r (name_with_cols (kupdate c_name c (set_ty y))).
+    rewrite kfind_kupdate in Hc; [|reflexivity]. destruct (N.eqb_spec c n); congruence.
+  - (* change default *) on_tab Ha Hc A t r (name_with_cols (kupdate c_name c (set_default d))).
+    rewrite kfind_kupdate in Hc; [|reflexivity]. destruct (N.eqb_spec c n); congruence.
+  - (* add cons *) on_tab Ha Hc A t r (name_with_cons (fun ks => ks ++ [k])).
+    rewrite kfind_app, kfind_single in Hc. destruct (kfind k_name n (t_cons tb)); [congruence|].
     destruct (N.eqb_spec (k_name k) n); congruence.
-  - (* drop cons *) apply in_table_some in Ha. destruct Ha as [tb [Htb Hp]].
-    apply (changed_on_table A t _ tb r (name_with_cons _) Htb) in Hc. left. destruct r as [n|t' n|t' n]; simpl in Hc; try tauto.
-    destruct Hc as [-> Hc]. rewrite kfind_kremove in Hc. destruct (N.eqb_spec n0 n); congruence.
-  - (* change cons *) apply in_table_some in Ha. destruct Ha as [tb [Htb Hp]].
-    apply (changed_on_table A t _ tb r (name_with_cons _) Htb) in Hc. left. destruct r as [n|t' n|t' n]; simpl in Hc; try tauto.
-    destruct Hc as [-> Hc]. rewrite kfind_kreplace in Hc. destruct (N.eqb_spec (k_name k) n); congruence.
+  - (* drop cons *) on_tab Ha Hc A t r (name_with_cons (kremove k_name n0)).
+    rewrite kfind_kremove in Hc. destruct (N.eqb_spec n0 n); congruence.
+  - (* change cons *) on_tab Ha Hc A t r (name_with_cons (kupdate k_name (k_name k) (fun _ => k))).
+    rewrite kfind_kreplace in Hc. destruct (N.eqb_spec (k_name k) n); congruence.
+  - (* add fk *) on_tab Ha Hc A t r (name_with_fks (fun fs => fs ++ [f])).
+    rewrite kfind_app, kfind_single in Hc. destruct (kfind f_name n (t_fks tb)); [congruence|].
+    destruct (N.eqb_spec (f_name f) n); congruence.
+  - (* drop fk *) on_tab Ha Hc A t r (name_with_fks (kremove f_name n0)).
+    rewrite kfind_kremove in Hc. destruct (N.eqb_spec n0 n); congruence.
 Qed.
 
 (* ================================================================ the catalogue: detection *)
 Lemma in_diff_on_table g A t f tb o : (forall x, t_name (f x) = t_name x) -> kfind t_name t A = Some tb ->
-  In o (existing_table g tb (f tb)) -> In o (diff g A (on_table t f A)).
-Proof. intros Hf Htb Ho. unfold diff. rewrite in_compare_tables. right; right. exists (f tb), tb.
+  In o (existing_table g (reflect_table tb) (f tb)) -> In o (diff g (reflect_sqlite A) (on_table t f A)).
+Proof. intros Hf Htb Ho. rewrite in_diff_reflect. right; right. exists (f tb), tb.
   destruct (kfind_some _ _ _ _ Htb) as [Hin Hn]. split; [|split; auto].
   - unfold on_table, kupdate. apply in_map_iff. exists tb. rewrite Hn, N.eqb_refl. auto.
   - rewrite Hf, Hn. auto. Qed.
@@ -212,6 +269,8 @@ Proof. intros Hf Htb Ho. unfold diff. rewrite in_compare_tables. right; right. e
 Lemma in_pre g c m o : In o (compare_columns_pre g (t_name m) c m) -> In o (existing_table g c m).
 Proof. unfold existing_table. rewrite !in_app_iff. auto. Qed.
 Lemma in_ciu g c m o : In o (compare_indexes_and_uniques (t_name m) (Some c) (Some m)) -> In o (existing_table g c m).
+Proof. unfold existing_table. rewrite !in_app_iff. auto. Qed.
+Lemma in_cfk g c m o : In o (compare_foreign_keys (t_name m) (Some c) (Some m)) -> In o (existing_table g c m).
 Proof. unfold existing_table. rewrite !in_app_iff. auto. Qed.
 Lemma in_post g c m o : In o (compare_columns_post (t_name m) c m) -> In o (existing_table g c m).
 Proof. unfold existing_table. rewrite !in_app_iff. auto. Qed.
@@ -222,53 +281,80 @@ Proof. intros Hin Hk. unfold kupdate. apply in_map_iff. exists a. rewrite Hk, N.
 Lemma eqb_negb_false b : Bool.eqb b (negb b) = false.
 Proof. destruct b; reflexivity. Qed.
 
-Theorem detects_catalogue g A m : nd_schema A -> applicable m A = true -> enabled g m = true ->
-  detects A m (diff g A (apply_mut m A)).
-Proof. intros [HAn HAt] Ha He k Hk. destruct m as [t|n0|t c|t c|t c|t c y|t kk|t n0|t kk]; simpl in *.
+(* an AlterColumnOp with the wanted modification is emitted as soon as one comparator fires *)
+Lemma alter_has_null g tn rc mc b : compare_nullable rc mc = Some b ->
+  exists o, In o (alter_column g tn rc mc) /\ op_has_kind o KAlterNullable = true /\ op_target o = RColumn tn (c_name mc).
+Proof. intros H. unfold alter_column. rewrite H. destruct (compare_type_col g rc mc); destruct (compare_server_default_col g rc mc);
+    eexists; (split; [left; reflexivity|]); simpl; auto. Qed.
+Lemma alter_has_type g tn rc mc y : compare_type_col g rc mc = Some y ->
+  exists o, In o (alter_column g tn rc mc) /\ op_has_kind o KAlterType = true /\ op_target o = RColumn tn (c_name mc).
+Proof. intros H. unfold alter_column. rewrite H. destruct (compare_nullable rc mc); destruct (compare_server_default_col g rc mc);
+    eexists; (split; [left; reflexivity|]); simpl; auto. Qed.
+Lemma alter_has_default g tn rc mc d : compare_server_default_col g rc mc = Some d ->
+  exists o, In o (alter_column g tn rc mc) /\ op_has_kind o KAlterDefault = true /\ op_target o = RColumn tn (c_name mc).
+Proof. intros H. unfold alter_column. rewrite H. destruct (compare_nullable rc mc); destruct (compare_type_col g rc mc);
+    eexists; (split; [left; reflexivity|]); simpl; auto. Qed.
+
+Lemma csd_detect g x d : compare_server_default g = true -> dok_col x ->
+  negb (opt_eqb (list_eqb N.eqb) (option_map (fun o => norm_default (d_txt o)) (c_default x)) (option_map (fun o => norm_default (d_txt o)) d)) = true ->
+  compare_server_default_col g (reflect_col x) (set_default d x) = Some d.
+Proof. intros Hg Hok H. unfold compare_server_default_col, ctx_compare_server_default, sqlite_compare_server_default, dok_col in *.
+  cbn [reflect_col set_default c_default]. rewrite Hg. cbn [negb].
+  destruct (c_default x) as [d0|]; destruct d as [d1|]; cbn [option_map opt_eqb] in *; try discriminate; auto.
+  - rewrite default_quiet; auto. rewrite H. auto.
+Qed.
+
+Lemma column_modified_detected g A t c f tb x k :
+  kfind t_name t A = Some tb -> kfind c_name c (t_cols tb) = Some x -> c_name (f x) = c_name x ->
+  (exists o, In o (alter_column g t (reflect_col x) (f x)) /\ op_has_kind o k = true /\ op_target o = RColumn t (c_name (f x))) ->
+  exists o, In o (diff g (reflect_sqlite A) (on_table t (with_cols (kupdate c_name c f)) A)) /\ op_has_kind o k = true /\ op_target o = RColumn t c.
+Proof. intros Htb Hx Hf [o [Ho [Hk Ht]]]. destruct (kfind_some _ _ _ _ Htb) as [Hin Hn]. destruct (kfind_some _ _ _ _ Hx) as [Hxin Hxn].
+  exists o. split; [|split; auto; rewrite Ht, Hf, Hxn; auto].
+  eapply in_diff_on_table; eauto. apply in_pre. unfold compare_columns_pre. apply in_or_app. right. apply in_flat_map. exists (f x).
+  cbn [with_cols t_cols t_name reflect_table]. split; [apply in_kupdate_of; auto|].
+  rewrite (kfind_map c_name reflect_col reflect_col_name), Hf, Hxn, Hx, Hn. exact Ho. Qed.
+
+Theorem detects_catalogue g A m : nd_schema A -> dok_schema A -> applicable m A = true -> enabled g m = true ->
+  detects A m (diff g (reflect_sqlite A) (apply_mut m A)).
+Proof. intros [HAn HAt] HAd Ha He k Hk. destruct m as [t|n0|t c|t c|t c|t c y|t c d|t kk|t n0|t kk|t f|t n0]; simpl in *.
   - (* add table *) destruct Hk as [<-|[]]. exists (OpCreateTable (create_table_of t)). split; [|auto].
-    unfold diff. rewrite in_compare_tables. left. exists t. split; [apply in_or_app; simpl; auto|]. split.
-    + apply negb_true_iff in Ha. auto.
+    rewrite in_diff_reflect. left. exists t. split; [apply in_or_app; simpl; auto|]. split.
+    + apply negb_true_iff in Ha. apply memN_false_kfind; auto.
     + left; auto.
   - (* drop table *) destruct Hk as [<-|[]]. apply memN_true_kfind in Ha. destruct Ha as [tb Htb].
     destruct (kfind_some _ _ _ _ Htb) as [Hin Hn]. exists (OpDropTable n0). split; [|auto].
-    unfold diff. rewrite in_compare_tables. right; left. exists tb. split; auto. split.
-    + rewrite memN_keys, kfind_kremove, Hn, N.eqb_refl. auto.
-    + unfold removed_table. apply in_or_app. right. rewrite Hn. left; auto.
+    rewrite in_diff_reflect. right; left. exists tb. split; auto. split.
+    + rewrite kfind_kremove, Hn, N.eqb_refl. auto.
+    + unfold removed_table. apply in_or_app. right. cbn [reflect_table t_name]. rewrite Hn. left; auto.
   - (* add column *) destruct Hk as [<-|[]]. apply in_table_some in Ha. destruct Ha as [tb [Htb Hp]].
     destruct (kfind_some _ _ _ _ Htb) as [Hin Hn]. apply negb_true_iff in Hp.
     exists (OpAddColumn t c). split; [|auto]. eapply in_diff_on_table; eauto. apply in_pre.
-    unfold compare_columns_pre. apply in_or_app. left. apply in_flat_map. exists c. cbn [with_cols t_cols t_name].
-    split; [apply in_or_app; simpl; auto|]. rewrite Hp, Hn. left; auto.
+    unfold compare_columns_pre. apply in_or_app. left. apply in_flat_map. exists c. cbn [with_cols t_cols t_name reflect_table].
+    split; [apply in_or_app; simpl; auto|]. rewrite (keys_map c_name reflect_col reflect_col_name), Hp, Hn. left; auto.
   - (* drop column *) destruct Hk as [<-|[]]. apply in_table_some in Ha. destruct Ha as [tb [Htb Hp]].
     destruct (kfind_some _ _ _ _ Htb) as [Hin Hn]. apply memN_true_kfind in Hp. destruct Hp as [x Hx].
     destruct (kfind_some _ _ _ _ Hx) as [Hxin Hxn].
     exists (OpDropColumn t c). split; [|auto]. eapply in_diff_on_table; eauto. apply in_post.
-    unfold compare_columns_post. apply in_flat_map. exists x. cbn [with_cols t_cols t_name]. split; auto.
-    rewrite memN_keys, kfind_kremove, Hxn, N.eqb_refl, Hn. left; auto.
+    unfold compare_columns_post. apply in_flat_map. exists (reflect_col x). cbn [with_cols t_cols t_name reflect_table]. split; [apply in_map; auto|].
+    cbn [reflect_col c_name]. rewrite memN_keys, kfind_kremove, Hxn, N.eqb_refl, Hn. left; auto.
   - (* flip nullable *) destruct Hk as [<-|[]]. apply in_table_some in Ha. destruct Ha as [tb [Htb Hp]].
-    destruct (kfind_some _ _ _ _ Htb) as [Hin Hn]. apply memN_true_kfind in Hp. destruct Hp as [x Hx].
-    destruct (kfind_some _ _ _ _ Hx) as [Hxin Hxn].
-    exists (OpAlterColumn t c (c_null x) (c_ty x) (Some (negb (c_null x))) None). split; [|auto].
-    eapply in_diff_on_table; eauto. apply in_pre.
-    unfold compare_columns_pre. apply in_or_app. right. apply in_flat_map. exists (flip_null x). cbn [with_cols t_cols t_name].
-    split; [apply in_kupdate_of; auto|]. cbn [flip_null c_name]. rewrite Hxn, Hx.
-    unfold alter_column, compare_nullable, compare_type_col. cbn [flip_null c_null c_ty c_name].
-    rewrite eqb_negb_false, ctx_compare_type_refl, Hxn, Hn. left; auto.
+    apply memN_true_kfind in Hp. destruct Hp as [x Hx].
+    eapply column_modified_detected; eauto. apply (alter_has_null g t (reflect_col x) (flip_null x) (negb (c_null x))).
+    unfold compare_nullable. cbn [reflect_col flip_null c_null]. rewrite eqb_negb_false. auto.
   - (* change type *) destruct Hk as [<-|[]]. apply in_table_some in Ha. destruct Ha as [tb [Htb Hp]].
-    destruct (kfind_some _ _ _ _ Htb) as [Hin Hn]. destruct (kfind c_name c (t_cols tb)) as [x|] eqn:Hx; [|congruence].
-    destruct (kfind_some _ _ _ _ Hx) as [Hxin Hxn]. apply negb_true_iff in Hp.
-    exists (OpAlterColumn t c (c_null x) (c_ty x) None (Some y)). split; [|auto].
-    eapply in_diff_on_table; eauto. apply in_pre.
-    unfold compare_columns_pre. apply in_or_app. right. apply in_flat_map. exists (set_ty y x). cbn [with_cols t_cols t_name].
-    split; [apply in_kupdate_of; auto|]. cbn [set_ty c_name]. rewrite Hxn, Hx.
-    unfold alter_column, compare_nullable, compare_type_col, ctx_compare_type, impl_compare_type. cbn [set_ty c_null c_ty c_name].
-    rewrite eqb_reflx, He, Hp, Hxn, Hn. left; auto.
+    destruct (kfind c_name c (t_cols tb)) as [x|] eqn:Hx; [|congruence]. apply negb_true_iff in Hp.
+    eapply column_modified_detected; eauto. apply (alter_has_type g t (reflect_col x) (set_ty y x) y).
+    unfold compare_type_col, ctx_compare_type, impl_compare_type. cbn [reflect_col set_ty c_ty]. rewrite He, Hp. auto.
+  - (* change default *) destruct Hk as [<-|[]]. apply in_table_some in Ha. destruct Ha as [tb [Htb Hp]].
+    destruct (kfind c_name c (t_cols tb)) as [x|] eqn:Hx; [|congruence].
+    eapply column_modified_detected; eauto. apply (alter_has_default g t (reflect_col x) (set_default d x) d).
+    apply csd_detect; auto. apply (HAd tb); [apply kfind_some in Htb|apply kfind_some in Hx]; tauto.
   - (* add cons *) destruct Hk as [<-|[]]. apply in_table_some in Ha. destruct Ha as [tb [Htb Hp]].
     destruct (kfind_some _ _ _ _ Htb) as [Hin Hn]. apply negb_true_iff in Hp.
     exists (OpAddCons t kk). split; [|split; auto]. 2:{ destruct kk; reflexivity. }
     eapply in_diff_on_table; eauto. apply in_ciu.
     unfold compare_indexes_and_uniques. cbn [orb negb]. apply in_or_app. right. apply in_or_app. right.
-    apply in_flat_map. exists kk. cbn [with_cons t_cons t_name]. split; [apply in_or_app; simpl; auto|].
+    apply in_flat_map. exists kk. cbn [with_cons t_cons t_name reflect_table]. split; [apply in_or_app; simpl; auto|].
     rewrite Hp, obj_added_true, Hn. left; auto.
   - (* drop cons *) apply in_table_some in Ha. destruct Ha as [tb [Htb Hp]].
     destruct (kfind_some _ _ _ _ Htb) as [Hin Hn]. apply memN_true_kfind in Hp. destruct Hp as [x Hx].
@@ -277,15 +363,16 @@ Proof. intros [HAn HAt] Ha He k Hk. destruct m as [t|n0|t c|t c|t c|t c y|t kk|t
     exists (OpDropCons t (is_ix x) n0). split; [|split; auto]. 2:{ destruct (is_ix x); reflexivity. }
     eapply in_diff_on_table; eauto. apply in_ciu.
     unfold compare_indexes_and_uniques. cbn [orb negb]. apply in_or_app. left.
-    apply in_flat_map. exists x. cbn [with_cons t_cons t_name]. split; auto.
+    apply in_flat_map. exists x. cbn [with_cons t_cons t_name reflect_table]. split; auto.
     rewrite memN_keys, kfind_kremove, Hxn, N.eqb_refl, obj_removed_true, Hxn, Hn. left; auto.
   - (* change cons *) apply in_table_some in Ha. destruct Ha as [tb [Htb Hp]].
     destruct (kfind_some _ _ _ _ Htb) as [Hin Hn]. destruct (kfind k_name (k_name kk) (t_cons tb)) as [x|] eqn:Hx; [|congruence].
     destruct (kfind_some _ _ _ _ Hx) as [Hxin Hxn]. apply andb_true_iff in Hp. destruct Hp as [Hi Hs]. apply negb_true_iff in Hs.
-    assert (Hops: forall o, In o (obj_changed t x kk) -> In o (diff g A (on_table t (with_cons (kupdate k_name (k_name kk) (fun _ => kk))) A))).
+    assert (Hops: forall o, In o (obj_changed t x kk) ->
+                    In o (diff g (reflect_sqlite A) (on_table t (with_cons (kupdate k_name (k_name kk) (fun _ => kk))) A))).
     { intros o Ho. eapply in_diff_on_table; eauto. apply in_ciu.
       unfold compare_indexes_and_uniques. cbn [orb negb]. apply in_or_app. right. apply in_or_app. left.
-      apply in_flat_map. exists kk. cbn [with_cons t_cons t_name]. split.
+      apply in_flat_map. exists kk. cbn [with_cons t_cons t_name reflect_table]. split.
       - apply (in_kupdate_of k_name (k_name kk) (fun _ => kk) (t_cons tb) x); auto.
       - rewrite Hx, Hi, Hs, Hn. auto. }
     apply eqb_prop in Hi. unfold obj_changed in Hops.
@@ -294,11 +381,22 @@ Proof. intros [HAn HAt] Ha He k Hk. destruct m as [t|n0|t c|t c|t c|t c y|t kk|t
     + exists (OpAddCons t kk). split; [apply Hops; simpl; auto|]. simpl. auto.
     + exists (OpDropCons t (is_ix x) (k_name x)). split; [apply Hops; simpl; auto|]. simpl. rewrite Hi, Hxn. auto.
     + exists (OpAddCons t kk). split; [apply Hops; simpl; auto|]. simpl. unfold is_uq. rewrite Ek. auto.
+  - (* add fk *) destruct Hk as [<-|[]]. apply in_table_some in Ha. destruct Ha as [tb [Htb Hp]].
+    destruct (kfind_some _ _ _ _ Htb) as [Hin Hn]. apply andb_true_iff in Hp. destruct Hp as [_ Hs]. apply negb_true_iff in Hs.
+    exists (OpAddFk t f). split; [|auto]. eapply in_diff_on_table; eauto. apply in_cfk.
+    unfold compare_foreign_keys. apply in_or_app. right. apply in_flat_map. exists f. cbn [with_fks t_fks t_name reflect_table].
+    split; [apply in_or_app; simpl; auto|]. rewrite Hs, Hn. left; auto.
+  - (* drop fk *) destruct Hk as [<-|[]]. apply in_table_some in Ha. destruct Ha as [tb [Htb Hp]].
+    destruct (kfind_some _ _ _ _ Htb) as [Hin Hn]. destruct (kfind f_name n0 (t_fks tb)) as [x|] eqn:Hx; [|congruence].
+    destruct (kfind_some _ _ _ _ Hx) as [Hxin Hxn]. apply negb_true_iff in Hp.
+    exists (OpDropFk t n0). split; [|auto]. eapply in_diff_on_table; eauto. apply in_cfk.
+    unfold compare_foreign_keys. apply in_or_app. left. apply in_flat_map. exists x. cbn [with_fks t_fks t_name reflect_table].
+    split; auto. rewrite Hp, Hxn, Hn. left; auto.
 Qed.
 
-Theorem nothing_else_catalogue g A m : nd_schema A -> nd_schema (apply_mut m A) -> applicable m A = true ->
-  nothing_else A m (diff g A (apply_mut m A)).
-Proof. intros HA HB Ha o Ho. apply changed_touches; auto. eapply diff_local; eauto. Qed.
+Theorem nothing_else_catalogue g A m : nd_schema A -> nd_schema (apply_mut m A) -> dok_schema (apply_mut m A) -> applicable m A = true ->
+  nothing_else A m (diff g (reflect_sqlite A) (apply_mut m A)).
+Proof. intros HA HB HBd Ha o Ho. apply changed_touches; auto. eapply diff_local; eauto. Qed.
 
 (* ================================================================ decider, model *)
 Lemma objref_eqb_eq a b : objref_eqb a b = true -> a = b.
@@ -320,14 +418,17 @@ Proof. unfold check_C07, C07_holds. rewrite andb_true_iff, forallb_forall. intro
     + apply nothing_elseb_sound; auto. Qed.
 
 Lemma wf_nd_schema S : wf_schemab S = true -> nd_schema S.
-Proof. apply wf_schema_nd. Qed.
+Proof. intros H. pose proof (wf_schema_ndf _ H) as Hf. apply wf_schema_nd in H. destruct H as [H1 H2]. split; auto. Qed.
+Lemma dok_of_defaults_ok S : defaults_ok S = true -> dok_schema S.
+Proof. intros H. exact (defaults_ok_dok S H). Qed.
 
 Theorem model_C07_holds i : inclass_C07 i = true -> C07_holds i (model_C07 i).
-Proof. destruct i as [A m]. unfold inclass_C07. simpl. rewrite !andb_true_iff. intros [[[[HA Ha] HB] _] _].
-  apply wf_nd_schema in HA. apply wf_nd_schema in HB. unfold C07_holds, model_C07. simpl. split; [reflexivity|].
+Proof. destruct i as [A m]. unfold inclass_C07. simpl. rewrite !andb_true_iff. intros [[[[[[HA Ha] HB] HdA] HdB] _] _].
+  apply wf_nd_schema in HA. apply wf_nd_schema in HB. apply dok_of_defaults_ok in HdA. apply dok_of_defaults_ok in HdB.
+  unfold C07_holds, model_C07. simpl. split; [reflexivity|].
   intros g ops Hin.
-  assert (Ho: ops = diff g A (apply_mut m A)).
-  { rewrite reflect_sqlite_id in Hin. repeat (destruct Hin as [Hin|Hin]; [inversion Hin; reflexivity|]). inversion Hin. }
+  assert (Ho: ops = diff g (reflect_sqlite A) (apply_mut m A)).
+  { repeat (destruct Hin as [Hin|Hin]; [inversion Hin; reflexivity|]). inversion Hin. }
   subst ops. split.
   - intros He. apply detects_catalogue; auto.
   - apply nothing_else_catalogue; auto. Qed.
